@@ -103,7 +103,7 @@ V('ab3-pad-index', ['C13'], U,
 V('ab3-cursor', ['C13'], U,
   "        last = m.end(0)\n", "        last = cur + r_len\n", 'AB3')
 V('ab3-slice-mismatch', ['C13'], U,
-  "o_pos += i_pos[last:cur]", "o_pos += i_pos[last:cur+1]", ['AB3'])
+  "o_pos += i_pos[last:cur]", "o_pos += i_pos[last:cur+1]", ['LS1'])
 # ---------------------------------------------------------------- TJ
 V('tj1-raw-offset', ['C15'], 'yalafi/shell/gentext.py',
   "offset = json_get(m, 'offset', int)", "offset = m['offset']", [])
@@ -551,10 +551,10 @@ V('um1-sticky-unknown', ['C09', 'C19'], P, "            buf.next()\n        if t
   "            buf.next()\n        if tok.txt in self.unknowns:\n            return [defs.ActionToken(tok.pos)]\n        if tok.txt not in self.the_macros:", 'UM1')
 V('sc8-many-digits', ['C09'], S, "        arg = int(latex[self.pos])\n        self.pos += 1\n",
   "        first = self.pos\n        while self.pos < self.max_pos and latex[self.pos].isdecimal():\n            self.pos += 1\n        arg = int(latex[first:self.pos])\n", 'SC8')
-V('sb2b-no-default-at-end', ['C09'], P, "                if tok and tok.txt == '[':\n                    delim = True\n                    arg_extr = arg = self.arg_buffer(buf, pos, end=']').all()\n                else:\n                    if n < len(mac.defaults):",
-  "                if not tok:\n                    pass\n                elif tok.txt == '[':\n                    delim = True\n                    arg_extr = arg = self.arg_buffer(buf, pos, end=']').all()\n                else:\n                    if n < len(mac.defaults):", 'SB2b')
-V('sb2b-neutral-elif', ['C09'], P, "                if tok and tok.txt == '[':\n                    delim = True\n                    arg_extr = arg = self.arg_buffer(buf, pos, end=']').all()\n                else:\n                    if n < len(mac.defaults):",
-  "                if tok is not None and tok.txt == '[':\n                    delim = True\n                    arg_extr = arg = self.arg_buffer(buf, pos, end=']').all()\n                else:\n                    if n < len(mac.defaults):", [])
+V('sb2b-no-default-at-end', ['C09'], P, "                if tok and tok.txt == '[':\n                    delim = True\n                    arg_extr = arg = self.arg_buffer(buf, pos, end=']').all()\n                else:\n                    buf.back(lang_toks)\n                    if n < len(mac.defaults):",
+  "                if not tok:\n                    pass\n                elif tok.txt == '[':\n                    delim = True\n                    arg_extr = arg = self.arg_buffer(buf, pos, end=']').all()\n                else:\n                    buf.back(lang_toks)\n                    if n < len(mac.defaults):", 'SB2b')
+V('sb2b-neutral-elif', ['C09'], P, "                if tok and tok.txt == '[':\n                    delim = True\n                    arg_extr = arg = self.arg_buffer(buf, pos, end=']').all()\n                else:\n                    buf.back(lang_toks)\n                    if n < len(mac.defaults):",
+  "                if tok is not None and tok.txt == '[':\n                    delim = True\n                    arg_extr = arg = self.arg_buffer(buf, pos, end=']').all()\n                else:\n                    buf.back(lang_toks)\n                    if n < len(mac.defaults):", [])
 V('en1-default-encoding', ['C09'], T2, "def read_definitions(fn, encoding):", "def read_definitions(fn, encoding='utf-8'):", 'EN1')
 V('sh1-global-language', ['C10', 'C12'], PR, "                            defs=cmdline.define, lang=language,", "                            defs=cmdline.define, lang=cmdline.language,", 'SH1')
 V('sh1-no-defs', ['C19'], PR, "                            defs=cmdline.define, lang=language,", "                            lang=language,", 'SH1')
@@ -665,10 +665,73 @@ V('ml10-neutral-var', ['C12'], 'yalafi/packages/babel.py',
 V('und1-noimport', ['C20', 'C15'], 'yalafi/shell/checks.py',
   "from yalafi import tex2txt\n", "", 'UND1')
 V('und1-injected', ['C16', 'C15'], 'yalafi/shell/genhtml.py',
-  "    global highlight_style_unsure\n    highlight_style_unsure = vars.highlight_style_unsure\n", "", 'UND1')
+  "    global highlight_style_unsure\n    highlight_style_unsure = getattr(vars, 'highlight_style_unsure',\n                                        highlight_style)\n", "", 'UND1')
 V('und1-typo', ['C07'], P,
   "        return self.unknowns\n", "        return self.unknwons if False else self.unknowns\n", [])
 V('und1-typo-global', ['C07'], P,
   "        return self.unknowns\n", "        return unknowns if self is None else self.unknowns\n", 'UND1')
 V('und1-neutral-import', ['C20', 'C15'], 'yalafi/shell/checks.py',
   "from yalafi import tex2txt\n", "import yalafi.tex2txt as tex2txt\n", [])
+V('ix18-strip', ['C07'], MP,
+  "        txt = txt.strip()\n        return txt[-1] if txt else ''", "        return txt.rstrip()[-1] if txt else ''", 'IX18')
+V('ix18-flow', ['C07'], P,
+  "            if not extr:\n                continue\n", "", 'IX18')
+V('ix18-neutral', ['C07'], MP,
+  "        txt = txt.strip()\n        return txt[-1] if txt else ''", "        stripped = txt.strip()\n        if not stripped:\n            return ''\n        return stripped[-1]", [])
+V('ix19-bound', ['C07'], S,
+  "        if start_arg < self.max_pos and latex[start_arg] == '*':", "        if latex[start_arg] == '*':", 'IX19')
+V('ix19-neutral', ['C07'], S,
+  "        if start_arg < self.max_pos and latex[start_arg] == '*':", "        if not start_arg >= self.max_pos and latex[start_arg] == '*':", [])
+V('em9-pinned-par', ['C08'], MP,
+  "            if not tok or type(tok) is defs.ParagraphToken:\n                buf.next()\n                out = (utils.latex_error('missing end of maths'",
+  "            if type(tok) is defs.ParagraphToken and tok.pos_fix:\n                buf.next()\n                continue\n            if not tok or type(tok) is defs.ParagraphToken:\n                buf.next()\n                out = (utils.latex_error('missing end of maths'", 'EM9')
+V('em9-neutral-split', ['C08'], MP,
+  "            if not tok or type(tok) is defs.ParagraphToken:\n                buf.next()\n                out = (utils.latex_error('missing end of maths'",
+  "            if tok is None or isinstance(tok, defs.ParagraphToken):\n                buf.next()\n                out = (utils.latex_error('missing end of maths'", [])
+V('mok1-rawkey', ['C11'], 'yalafi/parameters.py',
+  "                                    '\\\\cdot': 'раз', '\\\\times': 'раз',", "                                    '\\\\cdot': 'раз', r'\\\\times': 'раз',", 'MOK1')
+V('mok1-neutral-raw', ['C11'], 'yalafi/parameters.py',
+  "                                    '\\\\cdot': 'раз', '\\\\times': 'раз',", "                                    r'\\cdot': 'раз', r'\\times': 'раз',", [])
+V('opt1-elif', ['C11', 'C10'], T2,
+  "    if opts.nosp:\n        parms.no_specials()", "    elif opts.nosp:\n        parms.no_specials()", 'OPT1')
+V('spc1-blank', ['C10'], 'yalafi/packages/amsmath.py',
+  "        \\newcommand{\\thickspace}{\\;}", "        \\newcommand{\\thickspace}{ }", 'SPC1')
+V('spc1-neutral', ['C10'], 'yalafi/packages/amsmath.py',
+  "        \\newcommand{\\thickspace}{\\;}", "        \\newcommand{\\thickspace}{\\:}", [])
+V('sb6-skip', ['C09'], P,
+  "                                        scanned=True)\n        return [defs.ActionToken(start)]", "                                        scanned=True)\n        buf.skip_space()\n        return [defs.ActionToken(start)]", 'SB6')
+V('lt3-xspace', ['C12'], 'yalafi/packages/xspace.py',
+  "    tok = buf.cur()\n", "    tok = buf.skip_space()\n", 'LT3')
+V('la1-early', ['C12'], S,
+  "            tok = self.next()\n        self.back(buf)\n        return tok", "            tok = self.next()\n        if type(tok) is defs.ParagraphToken:\n            return tok\n        self.back(buf)\n        return tok", 'LA1')
+V('la1-neutral', ['C12'], S,
+  "        self.back(buf)\n        return tok", "        if buf:\n            self.back(buf)\n        return tok", [])
+V('ml2-same-parser', ['C12'], 'yalafi/parameters.py',
+  "        else:\n            if tok.hard:\n                self.parser_lang_stack[-1] = (", "        elif tok.lang == self.lang_context_lang():\n            return\n        else:\n            if tok.hard:\n                self.parser_lang_stack[-1] = (", 'ML2')
+V('ln2-cut', ['C13'], T2,
+  "    lines = f.readlines()", "    lines = [lin[:-1] for lin in f.readlines()]", 'LN2')
+V('ln2-neutral', ['C13'], T2,
+  "    lines = f.readlines()", "    lines = [lin.rstrip('\\n') + '\\n' for lin in f.readlines()]", [])
+V('lb1-overlap', ['C14', 'C16'], 'yalafi/shell/genhtml.py',
+  "                overlaps.append((s, h.lin + 1))", "                overlaps.append((s, h.lin + 2))", 'LB1')
+V('vb1-late', ['C18', 'C02'], S,
+  "        self.pos = next((i for i in range(start_arg, self.max_pos)\n                                if latex[i] in end_arg), self.max_pos)",
+  "        self.pos = next((i for i in range(start_arg + 1, self.max_pos)\n                                if latex[i] in end_arg), self.max_pos)", 'VB1')
+V('skp1-text', ['C05'], P,
+  "        while (buf.cur() and buf.is_space(buf.cur())\n                    and type(buf.cur()) is not defs.LanguageToken):",
+  "        while buf.cur() and (type(buf.cur()) is defs.CommentToken\n                    or buf.cur().txt.isspace() and '\\n\\n' not in buf.cur().txt):", 'SKP1')
+V('skp1-neutral-text', ['C05'], P,
+  "        while (buf.cur() and buf.is_space(buf.cur())\n                    and type(buf.cur()) is not defs.LanguageToken):",
+  "        while (buf.cur() and type(buf.cur()) is not defs.LanguageToken\n                    and buf.is_space(buf.cur())):", [])
+V('sc9-bom', ['C06'], S,
+  "        self.pos = 0\n        tokens = []", "        self.pos = 1 if latex.startswith('\\ufeff') else 0\n        tokens = []", 'SC9')
+V('ck13-flag', ['C20'], PR,
+  "            matches += checks.create_single_letter_matches(plain, cmdline)\n", "            if not cmdline.textgears:\n                matches += checks.create_single_letter_matches(plain, cmdline)\n", 'CK13')
+V('ps7-cycle', ['C17'], 'yalafi/parameters.py',
+  "class Parameters:\n", "import itertools\nsub_labels = itertools.cycle('abc')\n\nclass Parameters:\n    def next_label(self):\n        return next(sub_labels)\n", 'PS7')
+V('reg1-drop', ['C18'], 'yalafi/packages/__init__.py',
+  "        'listings',\n", "", 'REG1')
+V('lt1-no-pushback', ['C12'], P,
+  "                else:\n                    buf.back(lang_toks)\n                    if n < len(mac.defaults):", "                else:\n                    if n < len(mac.defaults):", 'LT1')
+V('lt1-skip-space-again', ['C12'], P,
+  "            lang_toks = []\n            tok = buf.cur()\n            while buf.is_space(tok):\n                if type(tok) is defs.LanguageToken:\n                    lang_toks.append(tok)\n                tok = buf.next()\n", "            lang_toks = []\n            tok = buf.skip_space()\n", 'LT1')
